@@ -11,8 +11,8 @@
 #include <stdlib.h>
 #include <syslog.h>
 
-enum { OP_INIT, OP_OPEN, OP_THREADED, OP_START, OP_ENABLE, OP_DISABLE, OP_LOG, OP_LINELEN, OP_CLOSE, OP_FINI, OP_BADLEN, NOPS };
-static const char *opn[] = { "init", "custom_open", "ctl(THREADED,1)", "thread_start", "ctl(ENABLED,1)", "ctl(ENABLED,0)", "log", "ctl(MAX_LINE_LEN)", "custom_close", "fini", "ctl(MAX_LINE_LEN, out of range)" };
+enum { OP_INIT, OP_OPEN, OP_THREADED, OP_START, OP_ENABLE, OP_DISABLE, OP_LOG, OP_LINELEN, OP_CLOSE, OP_FINI, OP_BADLEN, OP_REOPEN_BAD, NOPS };
+static const char *opn[] = { "init", "custom_open", "ctl(THREADED,1)", "thread_start", "ctl(ENABLED,1)", "ctl(ENABLED,0)", "log", "ctl(MAX_LINE_LEN)", "custom_close", "fini", "ctl(MAX_LINE_LEN, out of range)", "file_reopen(path that cannot be opened)" };
 static int depth, burst, burst_n;
 
 /* model */
@@ -21,7 +21,7 @@ static int inited, open_t = -1, threaded, started, enabled, cycles;
 static struct { int required, delivered, delivered2, logged_threaded; } MSG[MAXMSG];
 static int two_targets, open_t2 = -1, last_delivered2 = -1;     /* a second target that is opened, switched and closed together with the first */
 static int nmsg, last_delivered = -1, lost_reported, in_fini, fini_done_count;
-static int logger_busy, badlen_done;
+static int logger_busy, badlen_done, file_target, reopen_done;      /* file_target: the target is a log file (/dev/null): what it receives cannot be observed, safety and termination can */
 
 static void my_logger(int32_t t, struct qb_log_callsite *cs, struct timespec *ts, const char *msg)
 {
@@ -72,7 +72,7 @@ static void do_log(size_t len)
 	static char big[5000];
 	int seq = nmsg, before;
 	if (nmsg >= MAXMSG) vp_broken("too many messages");
-	MSG[seq].required = 1; MSG[seq].delivered = 0; MSG[seq].delivered2 = 0; MSG[seq].logged_threaded = threaded;
+	MSG[seq].required = !file_target; MSG[seq].delivered = 0; MSG[seq].delivered2 = 0; MSG[seq].logged_threaded = threaded;
 	nmsg++;
 	before = MSG[seq].delivered;
 	if (len) {
@@ -81,7 +81,7 @@ static void do_log(size_t len)
 	} else
 		qb_log_from_external_source("fn", "file.c", "m%d", LOG_INFO, 100 + (uint32_t)cycles, 0, seq);
 	(void)before;
-	if (!threaded && MSG[seq].delivered != 1) vp_fail("message m%d to a non-threaded, enabled target was not written during the log call", seq);
+	if (!threaded && !file_target && MSG[seq].delivered != 1) vp_fail("message m%d to a non-threaded, enabled target was not written during the log call", seq);
 	if (!threaded && two_targets && MSG[seq].delivered2 != 1) vp_fail("message m%d to the second (non-threaded, enabled) target was not written during the log call", seq);
 }
 
@@ -141,6 +141,7 @@ static void producer(void *arg)
 			if (open_t >= 0 && enabled && (!threaded || started)) legal[n++] = OP_LOG;
 			if (open_t >= 0 && last_op != OP_LINELEN) legal[n++] = OP_LINELEN;
 			if (open_t >= 0 && !badlen_done) legal[n++] = OP_BADLEN;
+			if (open_t >= 0 && file_target && !reopen_done) legal[n++] = OP_REOPEN_BAD;
 			if (open_t >= 0) legal[n++] = OP_CLOSE;
 			legal[n++] = OP_FINI;
 		}
@@ -155,8 +156,8 @@ static void producer(void *arg)
 			inited = 1;
 			break;
 		case OP_OPEN:
-			open_t = qb_log_custom_open(my_logger, my_close, NULL, NULL);
-			if (open_t < 0) vp_fail("custom_open failed: %d", open_t);
+			open_t = file_target ? qb_log_file_open("/dev/null") : qb_log_custom_open(my_logger, my_close, NULL, NULL);
+			if (open_t < 0) vp_fail("%s failed: %d", file_target ? "file_open" : "custom_open", open_t);
 			r = qb_log_filter_ctl(open_t, QB_LOG_FILTER_ADD, QB_LOG_FILTER_FILE, "*", LOG_TRACE);
 			if (r) vp_fail("filter add failed: %d", r);
 			enabled = 0; threaded = 0;
@@ -197,6 +198,12 @@ static void producer(void *arg)
 			r = qb_log_ctl(open_t, QB_LOG_CONF_MAX_LINE_LEN, 256);
 			if (r) vp_fail("ctl(MAX_LINE_LEN) failed: %d", r);
 			break;
+		case OP_REOPEN_BAD:
+			/* a reopen that fails leaves the target as it was - and the logging thread running */
+			reopen_done = 1;
+			r = qb_log_file_reopen(open_t, "/nonexistent-directory/vp.log");
+			if (r >= 0) vp_fail("file_reopen of a path that cannot be opened returned %d", r);
+			break;
 		case OP_BADLEN:
 			/* a value outside the accepted range is refused and changes nothing - in particular the logging thread goes on */
 			badlen_done = 1;
@@ -222,7 +229,7 @@ static int only_sync_points(const volatile void *a, int size, int w) { (void)a; 
 static void run(void)
 {
 	int i;
-	inited = 0; open_t = -1; threaded = started = enabled = cycles = 0; nmsg = 0; last_delivered = -1; lost_reported = 0; logger_busy = 0; badlen_done = 0; open_t2 = -1; last_delivered2 = -1;
+	inited = 0; open_t = -1; threaded = started = enabled = cycles = 0; nmsg = 0; last_delivered = -1; lost_reported = 0; logger_busy = 0; badlen_done = 0; reopen_done = 0; open_t2 = -1; last_delivered2 = -1;
 	vp_sched_reset();
 	vp_heap_reset();
 	vp_stack_size = 512 * 1024;
@@ -241,6 +248,7 @@ static void init(void)
 	burst = (int)vp_param("burst", 0, 0);
 	burst_n = (int)vp_param("burst_messages", 130, 130);
 	two_targets = (int)vp_param("two_targets", 0, 0);
+	file_target = (int)vp_param("file_target", 0, 0);
 	vp_count_name(1, "executions_with_messages_reported_lost");
 	vp_count_name(2, "messages_logged_total");
 }
